@@ -78,8 +78,6 @@ Fixpoint first_word (l : bytes) : bytes :=
   | c :: r => if c =? 32 then [] else c :: first_word r
   end.
 
-Definition zbe (l : bytes) : Z := Z.of_N (be_to_N l).
-
 Definition base_is_generator (k : curve_consts) (base : bytes) : bool :=
   match base with
   | 4 :: xy =>
@@ -159,6 +157,20 @@ Definition check_C16 (op : bytes) (input impl : arg) : arg :=
     match impl with
     | AL [AZ 0%Z; AL []] => AL []
     | AL [AZ 0%Z; _] => AS "a curve name is reported as inferred although the file carries no decodable explicit parameters"
+    | _ => AS "inspection of a damaged EC file failed (panic or error)"
+    end
+  else if bytes_eqb op (bs "inspectq") then
+    (* some ECParameters structures decode somewhere in the damaged file: a shown name must be
+       justified by one of them *)
+    let cands := arg_list (arg_nth 2 input) in
+    match impl with
+    | AL [AZ 0%Z; AL shown] =>
+        verdict (first_some (map (fun s =>
+          match nist (first_word (arg_bytes s)) with
+          | None => Some "a curve name is reported as inferred that is not one of P-224/P-256/P-384/P-521"%string
+          | Some k => if existsb (components_equal true k) cands then None
+                      else Some "a curve name is reported as inferred although no parameter set decodable from the file has that curve's components"%string
+          end) shown))
     | _ => AS "inspection of a damaged EC file failed (panic or error)"
     end
   else AL [].
